@@ -162,8 +162,8 @@ def _days_of_year(y, r, dtstart):
     elif not (r.byweekno or r.byyearday or r.bymonthday):
         # only BYMONTH: the day of month comes from DTSTART
         days = [x for x in days if x.day == dtstart[2]]
-    if r.byweekno and not r.byday:
-        # the weekday comes from DTSTART
+    if r.byweekno and not r.byday and not r.bymonthday and not r.byyearday:
+        # nothing picks the day within the week: the weekday comes from DTSTART
         wd = _dt.date(*dtstart[:3]).weekday()
         days = [x for x in days if x.weekday() == wd]
     return sorted(days)
